@@ -14,6 +14,8 @@ exceptions thrown by the transport) with monitors on every such access. Asserted
 one lock reachable from the client is owned, it is the same lock at all events of both transactions, and no lock
 is owned after execute() has returned or raised. The calls go through the public BaseModbusClient.execute, from an
 arbitrary client.state (the attribute is shared, so a concurrent caller may see any value).
+lock.real-tcp-client: the real ModbusTcpClient (not the scripted subclass) over a fake socket that records lock
+ownership at every send/recv/close; unsolicited bytes are left unread between two calls.
 prelock-connect.tcp: the connect() that BaseModbusClient.execute makes BEFORE entering the transaction manager is
 outside the lock (listed finding: two threads starting on an unconnected client can replace each other's socket). The lock is found by identity among all threading locks reachable
 from the client and its transaction manager, not by attribute name.
@@ -186,6 +188,91 @@ def make_lock(framing, retries, roe, roi, prelock=False):
     return lock
 
 
+def lock_realtcp(v: bytes, extra: bytes, n_extra: int, u: int) -> bool:
+    """the REAL ModbusTcpClient (its own connect/_send/_recv/close) over a fake socket whose every operation records
+    lock ownership: two consecutive calls; the first reply is followed by 0..3 unsolicited bytes that are still unread
+    when the second call starts. No socket operation may happen while no lock is owned."""
+    import pymodbus.client.sync as CS
+    import pymodbus.factory as F
+    assume(len(v) == 4 and len(extra) == 3)
+    assume(0 <= n_extra <= 3)
+    assume(1 <= u <= 247)
+    now = {"t": 1000}
+    events = []
+    holder = {}
+
+    def note(name):
+        events.append((name, tuple(bool(owned(l)) for l in holder["locks"])))
+
+    def clock():
+        now["t"] += 1
+        return now["t"]
+
+    class Sock(object):
+        def __init__(self):
+            self.pending = b""
+            self.n = 0
+
+        def setblocking(self, f):
+            pass
+
+        def settimeout(self, t):
+            pass
+
+        def send(self, data):
+            note("socket.send")
+            k = self.n
+            self.n += 1
+            self.pending = self.pending + adu.ref_adu("tcp", bytes([3, 2, v[2 * k], v[2 * k + 1]]), u, bytes([data[0], data[1]]))
+            if k == 0:
+                self.pending = self.pending + extra[:n_extra]
+            return len(data)
+
+        def recv(self, n):
+            note("socket.recv")
+            if n < 0:
+                raise ValueError("negative buffersize in recv")
+            out, self.pending = self.pending[:n], self.pending[n:]
+            return out
+
+        def close(self):
+            note("socket.close")
+
+    def fake_select(r, w, x, t=None):
+        return ([r[0]], [], []) if len(r[0].pending) > 0 else ([], [], [])
+    old = (CS.time.time, CS.select.select, CS.socket.create_connection)
+    cl = CS.ModbusTcpClient("h", timeout=3)
+    holder["locks"] = find_locks(cl, cl.transaction, cl.framer)
+    if not holder["locks"]:
+        return False
+    cl.socket = Sock()
+    CS.time.time, CS.select.select = clock, fake_select
+    CS.socket.create_connection = lambda *a, **k: Sock()
+    from pymodbus.utilities import ModbusTransactionState as MTS
+    MTS.to_string = classmethod(lambda cls, state: "<state>")
+    try:
+        for txn in range(2):
+            req = F.ReadHoldingRegistersRequest(txn, 1)
+            req.unit_id = u
+            try:
+                cl.execute(req)
+            except Exception:
+                pass
+            for l in holder["locks"]:
+                if owned(l):
+                    explain("a lock is still held after call %d", txn)
+                    return False
+    finally:
+        CS.time.time, CS.select.select, CS.socket.create_connection = old
+    if not events:
+        return False
+    for name, flags in events:
+        if sum(1 for f in flags if f) != 1:
+            explain("%s with owned locks %r (events: %r)", name, flags, [e[0] for e in events])
+            return False
+    return True
+
+
 def obligations(tier):
     from harness import kernels
     T = 300 if tier == "quick" else 1500
@@ -199,6 +286,8 @@ def obligations(tier):
         out.append(Obl("lock.%s.r%d.e%d.i%d" % (framing, retries, roe, roi), make_lock(framing, retries, roe, roi), timeout=T,
                        contracts=contracts[framing], lemmas=lem[framing],
                        bounds="%s client, two consecutive client.execute() calls, retries=%d, client.state on entry symbolic (0..6): per attempt a symbolic choice among %s (incl. OSError), symbolic contents; lock ownership recorded at every monitored access (the connect() call that BaseModbusClient.execute makes before entering the transaction manager is the subject of prelock-connect)" % (framing, retries, BEHAVIOURS)))
+    out.append(Obl("lock.real-tcp-client", lock_realtcp, timeout=T,
+                   bounds="real ModbusTcpClient over a fake socket (select/clock stubbed): two calls, the first reply followed by 0..3 symbolic unsolicited bytes; every socket send/recv/close must happen with the transaction lock owned"))
     out.append(Obl("prelock-connect.tcp", make_lock("tcp", 0, False, False, prelock=True), timeout=T,
                    whole_finding="KF-connect-outside-transaction-lock",
                    bounds="as lock.tcp.r0: the connect() call of BaseModbusClient.execute must be made with the transaction lock owned"))
